@@ -105,6 +105,7 @@ type Ctx struct {
 	Evals      int
 	Exhaustive bool
 	Notes      []string
+	Blind      []string // oracles that could not observe what they check (see Unobservable)
 
 	// CaseTimeout: if one case (from Begin to the next Begin / Finish) takes longer, the code under test is
 	// taken to be stuck (endless loop, deadlock): the case is recorded as a failure and the harness exits.
@@ -240,6 +241,23 @@ func (c *Ctx) Fail(what, detail string) {
 
 func (c *Ctx) Note(s string) { c.Notes = append(c.Notes, s) }
 
+// Unobservable records that an oracle of this harness could not observe what it is there to check on the
+// current tree (e.g. a reflection probe of private fields no longer finds them, a budget ran out before a
+// structural check). It is not a property failure; bin/check treats it as a broken correspondence (the
+// property is no longer shown to hold by this oracle): failing-input search, then VIOLATION ...
+// no-failing-input-found naming the oracle. Never called on the unchanged tree.
+func (c *Ctx) Unobservable(what string) {
+	for _, b := range c.Blind {
+		if b == what {
+			return
+		}
+	}
+	if len(c.Blind) < 20 {
+		c.Blind = append(c.Blind, what)
+	}
+	c.Stats["oracle_unobservable"]++
+}
+
 func (c *Ctx) Finish() {
 	c.deadline.Store(0)
 	c.flush()
@@ -255,7 +273,7 @@ func (c *Ctx) Finish() {
 		"evaluations": c.Evals, "distinct": len(c.distinct), "distinct_nontrivial": len(c.nontrivial),
 		"emitted": c.emitted, "shards": c.shardIdx, "shard_size": c.ShardSize,
 		"stats": c.Stats, "failures": c.Failures, "samples": c.Samples,
-		"exhaustive": c.Exhaustive, "notes": c.Notes,
+		"exhaustive": c.Exhaustive, "notes": c.Notes, "blind": c.Blind,
 	}
 	b, _ := json.MarshalIndent(res, "", " ")
 	os.WriteFile(filepath.Join(c.OutDir, "result.json"), b, 0o644)
